@@ -37,12 +37,15 @@ ASSUMPTIONS = [
     "template/probe comparison is differential testing over generated programs, not a proof about preprocessor.lua",
 ]
 
+SIGNED_ZERO_KEY = "poly-comptime-signed-zero: q(c: auto <comptime>) called with 0.0 then -0.0"
+SIGNED_ZERO_WITNESS = [7, 8]          # indices into gen.POLYC_ARGS: 0.0, -0.0
 INJECT_KEY = "hygienize-inject-order: M0 = {emit}; M1 = {emit; M0(); emit}; both defined first; then a statement, M1(), a statement"
 INJECT_WITNESS = ([["e"], ["e", ("c", 0), "e"]], [("d", 0), ("d", 1), "p", ("c", 1), "p"])
 THEOREM_CLASSES = {
     "C16_memoize_canonical": "main", "C16_generic_same_type": "main", "C16_memoize_once_per_class": "corollary",
     "C16_polyeval_reuse": "definitional", "C16_polyeval_same_args_one_specialisation": "main",
     "C16_polyeval_distinct_types_distinct_specialisations": "main", "C16_polyeval_comptime_values_distinguish": "main",
+    "C16_polyeval_lua_equal_values_share_refuted": "refutation", "C16_polyeval_distinct_values_partial": "corollary",
     "C16_hygiene_resolution": "main", "C16_hygiene_no_leak": "main", "C16_restoring_pop_needed": "refutation",
     "C16_hygiene_unbound_names_fall_through_partial": "corollary",
     "C16_expand_for": "definitional", "C16_expand_loop_order": "definitional", "C16_expand_if_call": "definitional",
@@ -52,6 +55,7 @@ UNPROVED = [
     "clause 1 of the statement (code produced by ## loops / ## if / macros / #[ ]# / #| |# behaves like the hand expansion): preprocessor.lua is not modelled; the Coq expander is a specification and its theorems are definitional; the clause rests on compiling generated templates next to their expansion (stdout and emitted C modulo codenames)",
     "cross-nesting named by the quantifier (macros inside generics inside polymorphic functions): the generator nests for/if/macros inside templates and probes generics, polymorphic functions and hygiene separately, not inside one another",
     "memoize's real argument match (== with Type.__eq, shallow_compare_nomt on tables) being an equivalence: discharged only for the modelled match of generics (types by identity, values, nil: C16_generic_same_type); table arguments are covered by C07's memo stream",
+    "comptime values are compared with Lua's == (the model's value ids are ==-classes): 0.0 and -0.0 share a specialisation although the body can tell them apart - open known finding, replayed (C16_polyeval_lua_equal_values_share_refuted)",
     "that each poly evaluation yields exactly one emitted C function: read from the emitted C in the poly stream only",
     "the hygiene model has one scope chain and one statement list: that hygienize switches context.scope / statnodes to the definition's (a generic called from another block than its definition) is assumed; covered by the hygiene_nested stream only",
     "statements generated into one place (between two source statements) by different hygienized functions run in generation order: checked on every generated nesting against the implementation and against the cursor model, not a theorem (C16_hygienize_own_order is about one function's own statements)",
@@ -59,7 +63,7 @@ UNPROVED = [
     "aster.value, inject_value, concepts: through the generated programs only",
 ]
 MANIFEST_ENTRY = {
-    "text": "proof, partial: theorems (on hand-written models tied by probe programs) for 'same arguments -> same type' (memoize, premises discharged for the modelled match), 'same argument types -> one specialisation, different -> distinct' (eval_poly), 'free names resolve where the generic was defined, nothing leaks' (checkpoints; restoring pop since b8843bb) and 'injected statements keep their order under nesting' (cursors, 6cc3727); the headline clause 'templates behave like their hand expansion' rests on differential compilation of generated templates only (definitional theorems about the specification expander)",
+    "text": "proof, partial (one open finding: 0.0 / -0.0 as comptime arguments share a specialisation): theorems (on hand-written models tied by probe programs) for 'same arguments -> same type' (memoize, premises discharged for the modelled match), 'same argument types -> one specialisation, different -> distinct' (eval_poly), 'free names resolve where the generic was defined, nothing leaks' (checkpoints; restoring pop since b8843bb) and 'injected statements keep their order under nesting' (cursors, 6cc3727); the headline clause 'templates behave like their hand expansion' rests on differential compilation of generated templates only (definitional theorems about the specification expander)",
     "note": "trusted: coqc, regex/structural scrape of poly_args_matches, eval_poly, pop/set/push_checkpoint, hygienize, generalize; harness/C16/gen.py (template and probe generators, renderers, C canonicaliser); the real compiler + gcc; preprocessor.lua unmodelled",
     "technique": "Coq models of memoize / eval_poly / scope checkpoints / statement cursors + template-vs-expansion and probe programs through the real compiler",
 }
@@ -213,6 +217,12 @@ def correspond(ctx):
     cases.append(("hygiene", ({1: 10, 2: 5}, {1: 20}, {3: 111}, 3, None)))
     cases.append(("hygiene", ({1: 10}, {4: 14}, {}, 1, 4)))
 
+    # comptime arguments of every kind (false, 0, '', nil, 0.0 / -0.0 ...), falsy values first and second
+    nk = len(g.POLYC_ARGS)
+    for fixed in ([0, 1, 0, 1], [1, 0, 1], [2, 3, 2], [4, 5, 4], [6, 0, 2, 4, 6], [8, 7], [0, 2, 4, 6, 1, 3, 5], SIGNED_ZERO_WITNESS):
+        cases.append(("polyc", fixed))
+    for _ in range(ctx.scale(10, 200)):
+        cases.append(("polyc", [rng.randrange(nk) for _ in range(rng.randint(2, 7))]))
     for i in range(ctx.scale(16, 400)):
         cases.append(("inject", g.gen_inject(rng, nested=(i % 4 != 3))))
     cases.append(("inject", INJECT_WITNESS))
@@ -232,6 +242,8 @@ def correspond(ctx):
             mlines.append("hyg %s/%s %s/%s - %s" % (f(inner), f(outer), f(inner), f(at_use), ",".join(map(str, reads))))
         elif kind == "poly":
             mlines.append("poly %d %s" % (int(p[1]), "|".join("%s;1:0:1:1:%d" % (g.POLY_ARGS[a][1], n) for a, n in p[0])))
+        elif kind == "polyc":
+            mlines.append("poly 0 " + "|".join("%d:0:1:1:%d;1:0:0:0:-" % (g.POLYC_ARGS[a][1], g.POLYC_ARGS[a][3]) for a in p))
         elif kind == "inject":
             mlines.append(g.inject_case(*p)[0])
         else:
@@ -264,6 +276,14 @@ def correspond(ctx):
                 src = g.generic_program(*p)
                 r = nelua(d, src)
                 return {"kind": kind, "src": src, "rc": r[0], "out": r[1], "err": r[2][-500:]}
+            if kind == "polyc":
+                src = g.polyc_program(p)
+                r = nelua(os.path.join(d, "tpl"), src)
+                c = nelua(os.path.join(d, "tpl"), src, ["--print-code"])
+                x = nelua(os.path.join(d, "exp"), g.polyc_expanded(p))
+                main = c[1].split("int nelua_main")[-1] if "nelua_main" in c[1] else c[1]
+                return {"kind": kind, "src": src, "rc": r[0], "out": r[1], "err": r[2][-500:], "xsrc": g.polyc_expanded(p), "xout": x[1], "xrc": x[0],
+                        "used": [int(v) for v in re.findall(r"prog_q_(\d+)\(", main)]}
             if kind == "poly":
                 src = g.poly_program(*p)
                 r = nelua(d, src)
@@ -283,13 +303,14 @@ def correspond(ctx):
     shutil.rmtree(work, ignore_errors=True)
 
     # ------------------------------------------------------------ compare
-    dist = {"template": 0, "generic": 0, "poly": 0, "hygiene": 0, "inject": 0, "hygiene_nested": 0}
+    dist = {"template": 0, "generic": 0, "poly": 0, "polyc": 0, "hygiene": 0, "inject": 0, "hygiene_nested": 0}
     stats = {"template_lines": 0, "template_empty": 0, "oracle_failures": 0, "model_mismatches": 0, "leaks_observed": 0,
              "specialisations_checked": 0, "type_identities_checked": 0, "c_lines_compared": 0}
     nontrivial = set()
     samples = []
     leak_witness_reproduced, leak_instances = [], []
     inject_witness_reproduced, inject_instances = [], []
+    zero_witness_reproduced, zero_instances = [], []
 
     def oracle_fail(key, summary, detail):
         stats["oracle_failures"] += 1
@@ -388,6 +409,41 @@ def correspond(ctx):
                          {"program": r["src"], "model": m})
             if len(samples) < 6:
                 samples.append({"poly_program": r["src"], "model": m})
+        elif kind == "polyc":
+            nontrivial.add(r["src"])
+            stats["specialisations_checked"] += len(p)
+            idx = [int(v) for v in m.split(" #")[0].split()]
+            first, oidx = {}, []
+            for a in p:                                   # oracle: one specialisation per distinct (type, value)
+                oidx.append(first.setdefault(a, len(first)))
+            exp_out = ["call\t%d\t%s" % (i, g.POLYC_ARGS[a][4]) for i, a in enumerate(p)]
+            got_out = r["out"].rstrip("\n").split("\n")
+            used = [u - 1 for u in r["used"]]
+            same_as_expansion = r["rc"] == 0 and r["xrc"] == 0 and r["out"] == r["xout"]
+            if not same_as_expansion or got_out != exp_out or used != oidx:
+                wrong = [i for i, (a_, b_) in enumerate(zip(got_out, exp_out)) if a_ != b_]
+                fm, midx = {}, []
+                for a in p:                               # the oracle with 0.0 and -0.0 taken as one value (Lua ==)
+                    midx.append(fm.setdefault(g.POLYC_ARGS[a][3], len(fm)))
+                only_signed_zero = r["rc"] == 0 and used == idx == midx and all(p[i] in (7, 8) for i in wrong)
+                if only_signed_zero and list(p) == SIGNED_ZERO_WITNESS:
+                    zero_witness_reproduced.append(True)
+                    ctx.violation(SIGNED_ZERO_KEY, "oracle",
+                                  "a polymorphic function called with the comptime arguments 0.0 and -0.0 reuses one specialisation (poly_args_matches compares with ==): prints %s, its hand expansion prints %s" %
+                                  (got_out, r["xout"].rstrip("\n").split("\n")),
+                                  detail={"program": r["src"], "hand_expansion": r["xsrc"], "stdout": r["out"], "expansion_stdout": r["xout"], "model": m})
+                elif only_signed_zero:
+                    zero_instances.append((r["src"], got_out))
+                else:
+                    oracle_fail("polyc: " + r["src"].replace("\n", " ; ")[:500],
+                                "polymorphic function with comptime arguments does not behave like its hand expansion: prints %s, the expansion prints %s; specialisation per call %s, expected %s (model %s) %s" %
+                                (got_out, r["xout"].rstrip("\n").split("\n"), used, oidx, idx, r["err"][-200:]),
+                                {"program": r["src"], "hand_expansion": r["xsrc"], "stdout": r["out"], "expansion_stdout": r["xout"],
+                                 "specialisation_per_call": used, "expected": oidx, "model": m})
+            elif idx != oidx:
+                mismatch("poly", "model of eval_poly (%s) disagrees with the implementation (%s) on comptime arguments" % (idx, used), {"program": r["src"], "model": m})
+            if len(samples) < 12:
+                samples.append({"polyc_program": r["src"], "model": m})
         elif kind == "hygiene_nested":
             outer, inner, use, reads = p
             nontrivial.add(r["src"])
@@ -525,6 +581,10 @@ def correspond(ctx):
                         "a name declared by the body of a generic is visible at the use site after the instantiation (prints %s) although the canonical witness did not reproduce" % seen,
                         {"program": src})
     stats["leak_instances_shrunk_to_witness"] = len(leak_instances) if leak_witness_reproduced else 0
+    if zero_instances and not zero_witness_reproduced:
+        for src, got in zero_instances[:3]:
+            oracle_fail("polyc: " + src.replace("\n", " ; ")[:500], "0.0 / -0.0 share a specialisation (%s) although the canonical witness did not reproduce" % got, {"program": src})
+    stats["signed_zero_instances_same_shape_as_witness"] = len(zero_instances) if zero_witness_reproduced else 0
     if inject_instances and not inject_witness_reproduced:
         for src, got in inject_instances[:3]:
             oracle_fail("inject: " + src.replace("\n", " ; ")[:500],
